@@ -3,6 +3,9 @@ Tie (1) exhaustive over layouts N x p, every origin, 3 routing schemes: ONE broa
 leg list (isend lines of the async communicator in the wire log, stage = class of the 16-bit lambda id) and the
 per-rank execution counts are compared with YgmVerif.Bcast.bcastLegs / bcastExec run by the Lean driver; the
 per-rank (recv_count, send_count) operands of the last barrier reduction are compared with the model's ledger.
+The placement of ranks on nodes is a dimension: block (rank r on node r / p; driver command `bcast`) and round-robin
+(SIMMPI_PLACEMENT=cyclic: rank r on node r % N; driver command `bcastp cyclic` = YgmVerif.BcastP, the model computed
+through the layout's lookup tables) — cyclic on the sub-box N, p <= 4 in quick, on every layout in thorough.
 Tie (2) concurrency: generated programs with several broadcasts / mcasts / point-to-point asyncs from different
 origins, also issued from inside handlers, 3 routings x buffer 0/default x 5 scheduler policies x sim seeds;
 oracle: at every barrier each rank has executed each broadcast uid exactly once and each mcast uid exactly as often
@@ -23,15 +26,24 @@ META = {
             "computed exactly as pack_lambda_broadcast computes them (C remainder fix-up, layered partner loop with break, is_local skip) execute "
             "the lambda exactly once on every rank and nowhere else, that the number of legs (send counts) equals the number of executions (receive "
             "counts) = N*p, that only stage-2 legs are off-node and join equal on-node indices, and that async_mcast is one message per list entry. "
+            "Theorems bcastP_exec_perm / bcastP_each_once / bcastP_none_outside / bcastP_count_outside / bcastP_legs_counted / bcastP_offnode_same_local / "
+            "bcastP_legs_causal over YgmVerif.BcastP prove the same for EVERY placement of ranks on nodes given by the layout's lookup tables (node_id, "
+            "local_id, local_ranks, strided_ranks) under the hypothesis that (node_id, local_id) is a bijection onto [0,N) x [0,p); valid_block / "
+            "valid_cyclic / valid_ofIds are the instances, bcastP_block_legs says the block instance is the model above, bcastP_old_block / "
+            "bcastP_old_cyclic_defect that the remote loop before the repair of the cyclic-placement defect agrees on block placement and fails on "
+            "3x2 round-robin. "
             "The model is tied to comm.ipp by comparing the real leg list and execution counts of every origin on every layout of the tier's box "
             "and by concurrent generated programs.",
     "note": "Trusted: Lean kernel + propext/Classical.choice/Quot.sound; Bcast.lean is tied to comm.ipp on the enumerated layouts (quick N*p <= 16, "
-            "N,p <= 6; thorough N,p <= 8) and on the generated concurrent programs; delivery of each individual leg / mcast message once on its "
+            "N,p <= 6; thorough N,p <= 8) and on the generated concurrent programs; BcastP.lean (bcastP_exec_perm & co.: the same theorems for EVERY "
+            "placement whose layout tables are a bijection ranks <-> node x local id; block and cyclic are proved instances, the block instance is "
+            "Bcast.bcastLegs by rfl; bcastP_old_cyclic_defect pins the defect of the pre-repair loop) is tied on the same single-broadcast runs under "
+            "round-robin placement (quick N,p <= 4; thorough all layouts of the box); delivery of each individual leg / mcast message once on its "
             "destination is C01's theorem (composed, and exercised here); handlers obey the README rules (no barrier inside handlers).",
 }
 
-RULE = ("(1) exhaustive: every layout of the box x every origin x 3 routings, one async_bcast between barriers; case = (N, p, routing, origin); "
-        "non-trivial = more than one node. (2) generated: programs of 2 rounds with 3-9 root operations each (bcast 40% / mcast 25% / async 35%, "
+RULE = ("(1) exhaustive: every layout of the box x placement {block, cyclic (quick: N,p <= 4; thorough: every layout)} x every origin x 3 routings, "
+        "one async_bcast between barriers; case = (N, p, placement, routing, origin); non-trivial = more than one node. (2) generated: programs of 2 rounds with 3-9 root operations each (bcast 40% / mcast 25% / async 35%, "
         "random issuers, mcast lists of 0-5 entries with duplicates), each root with probability 0.55 spawning a child operation from inside its "
         "handler (depth <= 2), over layouts {1x4,2x2,2x3,3x2,2x4,5x2,3x3,4x2} x routing x buffer {0, default} x policy "
         "{uniform,racer,starve,late,burst} x a fresh sim seed per program (quick: 1 repetition = 240 programs; thorough: 12 repetitions, 5 more layouts up to 16 ranks, up to 15 roots per round)")
@@ -51,12 +63,34 @@ def layouts(tier):
     return [(N, p) for N in range(1, 9) for p in range(1, 9)]
 
 
+PLACEMENTS = ["block", "cyclic"]
+
+
+def placed_layouts(tier):
+    """(N, p, placement) of tie (1): block everywhere; round-robin on the sub-box N, p <= 4 (quick) / everywhere (thorough)"""
+    out = []
+    for (N, p) in layouts(tier):
+        out.append((N, p, "block"))
+        if tier != "quick" or (N <= 4 and p <= 4):
+            out.append((N, p, "cyclic"))
+    return out
+
+
+def node_of(pl, N, p, r):
+    return r // p if pl == "block" else r % N
+
+
+def loc_of(pl, N, p, r):
+    return r % p if pl == "block" else r // N
+
+
 # ------------------------------------------------------------------ model side
 
 def model_bcasts(keys):
-    """keys: [(N,p,o)] -> {(N,p,o): (legs [(s,d,k)], exec [r])}"""
-    keys = sorted(set(keys))
-    out = C.model("route", [f"bcast {N} {p} {o}" for (N, p, o) in keys])
+    """keys: [(N,p,o)] (block placement, YgmVerif.Bcast) or [(N,p,o,placement)] (YgmVerif.BcastP for a placement other than block)
+    -> {key: (legs [(s,d,k)], exec [r])}"""
+    keys = sorted(set(keys), key=lambda k: (len(k), k))
+    out = C.model("route", [f"bcast {k[0]} {k[1]} {k[2]}" if len(k) == 3 or k[3] == "block" else f"bcastp {k[3]} {k[0]} {k[1]} {k[2]}" for k in keys])
     res = {}
     for k, o in zip(keys, out):
         a, b = o.split("|")
@@ -114,19 +148,23 @@ def single_variant(N, p, sch):
     return (0 if k % 2 else None), POLICIES[k % 5]
 
 
-def run_bcast(binary, N, p, sch, lo, hi, sim_seed=1):
+def run_bcast(binary, N, p, sch, lo, hi, sim_seed=1, placement="block"):
     n = N * p
     buf, pol = single_variant(N, p, sch)
-    env = {"YGM_COMM_ROUTING": sch}
+    env = {"YGM_COMM_ROUTING": sch, "SIMMPI_PLACEMENT": placement}
     if buf is not None:
         env["YGM_COMM_BUFFER_SIZE_KB"] = buf
     return C.run_sim(binary, ["bcast", lo, hi], nodes=N, ppn=p, env=env, sim_seed=sim_seed, policy=pol,
                      log_bytes=12, timeout=600, max_steps=5000 + (hi - lo) * n * (80 * n + 800))
 
 
-def check_bcast_job(res, N, p, sch, lo, hi, sr, MB, model_ok):
+def mb_key(N, p, o, pl):
+    return (N, p, o) if pl == "block" else (N, p, o, pl)
+
+
+def check_bcast_job(res, N, p, sch, lo, hi, sr, MB, model_ok, pl="block"):
     n = N * p
-    case0 = {"N": N, "p": p, "kind": "single", "scheme": sch, "lo": lo, "hi": hi}
+    case0 = {"N": N, "p": p, "kind": "single", "scheme": sch, "lo": lo, "hi": hi, "placement": pl}
     if sr.verdict != "ok":
         res.oracle_failures.append({"what": f"single-broadcast run did not finish: {sr.verdict} {sr.blocked[:200]}", "signature": f"bcast-run-{sr.verdict.split(':')[0]}",
                                     "case": dict(case0, stderr=sr.stderr[-300:])})
@@ -135,8 +173,9 @@ def check_bcast_job(res, N, p, sch, lo, hi, sr, MB, model_ok):
     if [g["o"] for g in segs] != list(range(lo, hi)):
         res.corr_failures.append({"relation": "wire log has one segment per origin", "what": f"segments {[g['o'] for g in segs]}", "case": case0})
         return
-    node = lambda r: r // p
-    loc = lambda r: r % p
+    node = lambda r: node_of(pl, N, p, r)
+    loc = lambda r: loc_of(pl, N, p, r)
+    tag = "" if pl == "block" else f" {pl} placement"
     hdr = 0 if sch == "NONE" else 8
     sent_model = [0] * n
     for g in segs:
@@ -144,15 +183,15 @@ def check_bcast_job(res, N, p, sch, lo, hi, sr, MB, model_ok):
         case = dict(case0, origin=o)
         res.evaluations += 1
         if N > 1:
-            res.distinct.add((N, p, sch, o))
-        res.count(("N>p" if N > p else "N<p" if N < p else "N=p") + ("" if N > 1 else " single-node"))
+            res.distinct.add((N, p, sch, o) if pl == "block" else (N, p, sch, o, pl))
+        res.count(("N>p" if N > p else "N<p" if N < p else "N=p") + ("" if N > 1 else " single-node") + tag)
         # ---- oracle: every rank executes exactly once, nobody else
         cnt = {}
         for (r, uid) in g["execs"]:
             cnt[(r, uid)] = cnt.get((r, uid), 0) + 1
         bad = [r for r in range(n) if cnt.get((r, o), 0) != 1] + [k for k in cnt if k[1] != o or not (0 <= k[0] < n)]
         if bad:
-            res.oracle_failures.append({"what": f"{sch} origin {o} on {N}x{p}: executions per rank {[cnt.get((r, o), 0) for r in range(n)]} (expected all 1)",
+            res.oracle_failures.append({"what": f"{sch} origin {o} on {N}x{p}{tag}: executions per rank {[cnt.get((r, o), 0) for r in range(n)]} (expected all 1)",
                                         "signature": "bcast-exec-count", "case": dict(case, counts=[cnt.get((r, o), 0) for r in range(n)])})
         # ---- real legs
         lids, legs = [], []
@@ -166,30 +205,88 @@ def check_bcast_job(res, N, p, sch, lo, hi, sr, MB, model_ok):
             if not (0 <= b < n):
                 res.oracle_failures.append({"what": f"leg {a}->{b} leaves the communicator", "signature": "bcast-leg-out-of-range", "case": case})
             elif node(a) != node(b) and loc(a) != loc(b):
-                res.oracle_failures.append({"what": f"{sch} origin {o}: off-node leg {a}->{b} joins different on-node indices", "signature": "bcast-offnode-local", "case": case})
+                res.oracle_failures.append({"what": f"{sch} origin {o}{tag}: off-node leg {a}->{b} joins different on-node indices", "signature": "bcast-offnode-local", "case": case})
         case["legs"] = [list(x) for x in legs]
         if model_ok:
-            mlegs, mexec = MB[(N, p, o)]
+            mlegs, mexec = MB[mb_key(N, p, o, pl)]
             if sorted(legs) != sorted(mlegs):
-                res.corr_failures.append({"relation": "Bcast.bcastLegs == isend (src,dst,lambda class) list of one async_bcast", "what": f"{sch} origin {o} on {N}x{p}: real {sorted(legs)} model {sorted(mlegs)}", "case": dict(case, model=[list(x) for x in mlegs])})
+                res.corr_failures.append({"relation": ("Bcast.bcastLegs" if pl == "block" else f"BcastP.bcastLegs ({pl})") + " == isend (src,dst,lambda class) list of one async_bcast",
+                                          "what": f"{sch} origin {o} on {N}x{p}{tag}: real {sorted(legs)} model {sorted(mlegs)}", "case": dict(case, model=[list(x) for x in mlegs])})
             else:
                 res.traces_validated += 1
             mc = [mexec.count(r) for r in range(n)]
             rc = [cnt.get((r, o), 0) for r in range(n)]
             if mc != rc:
-                res.corr_failures.append({"relation": "Bcast.bcastExec counts == executions per rank", "what": f"{sch} origin {o}: real {rc} model {mc}", "case": case})
+                res.corr_failures.append({"relation": "Bcast.bcastExec counts == executions per rank", "what": f"{sch} origin {o}{tag}: real {rc} model {mc}", "case": case})
             if len(legs) != n:
                 res.corr_failures.append({"relation": "number of legs == N*p (bcast_legs_counted)", "what": f"{len(legs)} legs", "case": case})
             for (a, b, k) in mlegs:
                 sent_model[a] += 1
-        if (N, p, o) in ((5, 2, 3), (2, 4, 1)) and sch == "NLNR":
-            res.sample({"N": N, "p": p, "routing": sch, "origin": o, "real_legs": sorted(legs), "exec_counts": [cnt.get((r, o), 0) for r in range(n)]})
+        if ((N, p, o) in ((5, 2, 3), (2, 4, 1)) and pl == "block" or (N, p, o, pl) == (3, 2, 0, "cyclic")) and sch == "NLNR":
+            res.sample({"N": N, "p": p, "placement": pl, "routing": sch, "origin": o, "real_legs": sorted(legs), "exec_counts": [cnt.get((r, o), 0) for r in range(n)]})
     # ---- ledger of the whole job: operands of the last barrier reduction, rank by rank
     if model_ok:
         want = {r: (hi - lo, sent_model[r]) for r in range(n)}
         if contrib != want:
             res.corr_failures.append({"relation": "per-rank (m_recv_count, m_send_count) at the last barrier == model ledger (one per execution, one per leg)",
                                       "what": f"real {contrib} model {want}", "case": case0})
+
+
+# ------------------------------------------------------------------ the placement's lookup tables (hypothesis of Props/C05P.lean)
+
+def run_tables(binary, N, p, pl):
+    return C.run_sim(binary, ["tables"], nodes=N, ppn=p, env={"YGM_COMM_ROUTING": "NLNR", "SIMMPI_PLACEMENT": pl}, want_log=False, timeout=300)
+
+
+def check_tables(res, N, p, pl, sr, model_ok):
+    """the tables layout.hpp gathers under this placement are the tables of the model's `Placement` (BcastP.block / BcastP.cyclic), rank by rank,
+    and (oracle) they are what `Valid` says: (node_id, local_id) is a bijection onto [0,N) x [0,p) whose inverse the two cached tables are"""
+    n = N * p
+    case0 = {"N": N, "p": p, "placement": pl, "kind": "tables"}
+    if sr.verdict != "ok":
+        res.oracle_failures.append({"what": f"layout-table run did not finish: {sr.verdict}", "signature": "bcast-tables-run", "case": dict(case0, stderr=sr.stderr[-300:])})
+        return
+    T = {}
+    for r in range(n):
+        t = {}
+        for l in sr.outs.get(r, []):
+            w = l.split()
+            if w and w[0] in ("layout", "strided", "local", "r2n", "r2l"):
+                t[w[0]] = [int(x) for x in w[1:]]
+        T[r] = t
+    if any(len(T[r]) != 5 for r in range(n)):
+        res.oracle_failures.append({"what": "layout tables incomplete", "signature": "bcast-tables-incomplete", "case": case0})
+        return
+    res.evaluations += 1
+    r2n, r2l = T[0]["r2n"], T[0]["r2l"]
+    pairs = {(r2n[r], r2l[r]) for r in range(n)}
+    bad = None
+    if pairs != {(a, j) for a in range(N) for j in range(p)}:
+        bad = f"(node_id, local_id) is not a bijection onto [0,{N}) x [0,{p}): {sorted(pairs)}"
+    for me in range(n):
+        t = T[me]
+        if bad:
+            break
+        if t["r2n"] != r2n or t["r2l"] != r2l or t["layout"][:2] != [r2n[me], r2l[me]] or t["layout"][2:] != [N, p, n, me]:
+            bad = f"rank {me}: inconsistent global tables"
+        elif len(t["local"]) != p or any((r2n[x], r2l[x]) != (r2n[me], j) for j, x in enumerate(t["local"])):
+            bad = f"rank {me}: local_ranks()[j] is not the rank with local id j on my node: {t['local']}"
+        elif len(t["strided"]) != N or any((r2n[x], r2l[x]) != (k, r2l[me]) for k, x in enumerate(t["strided"])):
+            bad = f"rank {me}: strided_ranks()[k] is not the rank with my local id on node k: {t['strided']}"
+    if bad:
+        res.oracle_failures.append({"what": f"{N}x{p} {pl} placement: {bad}", "signature": "bcast-tables-not-valid", "case": case0})
+        return
+    if model_ok:
+        out = C.model("route", [f"layoutp {pl} {N} {p} {me}" for me in range(n)])
+        for me, o in enumerate(out):
+            parts = [x.split() for x in o.split("|")]
+            mod = {x[0]: [int(v) for v in x[1:]] for x in parts if x}
+            real = {"nl": T[me]["layout"][:2], "strided": T[me]["strided"], "local": T[me]["local"], "r2n": T[me]["r2n"], "r2l": T[me]["r2l"]}
+            if mod != real:
+                res.corr_failures.append({"relation": f"BcastP.{pl} lookup tables == layout.hpp tables under SIMMPI_PLACEMENT={pl}", "what": f"rank {me}: real {real} model {mod}", "case": dict(case0, rank=me)})
+                return
+        res.traces_validated += 1
+        res.distinct.add(("tables", N, p, pl))
 
 
 # ------------------------------------------------------------------ concurrency
@@ -431,7 +528,7 @@ def guarded(res, case, fn, *a):
 def run(tier, seed, model_ok=True):
     res = C.Result()
     res.rule = RULE
-    res.assumptions = ["block placement of ranks on nodes (simmpi)", "handlers do not call barrier()/collectives (README rule)",
+    res.assumptions = ["placements exercised: block and round-robin (simmpi); every other placement is covered by the theorems of Props/C05P.lean only", "handlers do not call barrier()/collectives (README rule)",
                        "each leg / mcast message is delivered once to its destination buffer: C01 (exercised here, proved there)",
                        "layouts beyond the tier's box are covered by the theorems only"]
     binary, err = C.build_harness("route")
@@ -441,19 +538,23 @@ def run(tier, seed, model_ok=True):
     if not model_ok:
         res.corr_failures.append({"relation": "model driver available", "what": "Lean library does not build", "case": None})
     lays = layouts(tier)
-    # ---- (1) exhaustive single broadcasts
-    MB = model_bcasts([(N, p, o) for (N, p) in lays for o in range(N * p)]) if model_ok else {}
+    plays = placed_layouts(tier)
+    # ---- (1) exhaustive single broadcasts, block and round-robin placement
+    MB = model_bcasts([mb_key(N, p, o, pl) for (N, p, pl) in plays for o in range(N * p)]) if model_ok else {}
     jobs = []
-    for (N, p) in lays:
+    for (N, p, pl) in plays:
         n = N * p
         chunk = max(1, 256 // n)
         for sch in SCHEMES:
             for lo in range(0, n, chunk):
-                jobs.append((N, p, sch, lo, min(n, lo + chunk)))
+                jobs.append((N, p, sch, lo, min(n, lo + chunk), pl))
     jobs.sort(key=lambda j: -(j[0] * j[1]) * (j[4] - j[3]))
-    for j, sr in zip(jobs, C.pmap(lambda j: run_bcast(binary, *j, sim_seed=seed), jobs)):
-        guarded(res, {"N": j[0], "p": j[1], "kind": "single", "scheme": j[2], "lo": j[3], "hi": j[4]},
-                check_bcast_job, res, j[0], j[1], j[2], j[3], j[4], sr, MB, model_ok)
+    for j, sr in zip(jobs, C.pmap(lambda j: run_bcast(binary, *j[:5], sim_seed=seed, placement=j[5]), jobs)):
+        guarded(res, {"N": j[0], "p": j[1], "kind": "single", "scheme": j[2], "lo": j[3], "hi": j[4], "placement": j[5]},
+                check_bcast_job, res, j[0], j[1], j[2], j[3], j[4], sr, MB, model_ok, j[5])
+    # ---- (1b) the lookup tables of every (layout, placement) of tie (1): hypothesis `Valid` and the instances of Props/C05P.lean
+    for (N, p, pl), sr in zip(plays, C.pmap(lambda x: run_tables(binary, *x), plays)):
+        guarded(res, {"N": N, "p": p, "placement": pl, "kind": "tables"}, check_tables, res, N, p, pl, sr, model_ok)
     res.exhaustive = True
     # ---- (2) concurrency
     cfgs = conc_configs(tier, seed)
@@ -467,7 +568,7 @@ def run(tier, seed, model_ok=True):
     for j, sr in zip(sjobs, C.pmap(lambda j: run_sub(binary, j, seed), sjobs)):
         guarded(res, dict(j, kind="sub"), check_sub, res, j, sr)
     res.notes.append(f"{len(sjobs)} sub-communicator jobs")
-    res.notes.append(f"{len(lays)} layouts, {len(jobs)} single-broadcast jobs, {len(cfgs)} concurrent programs, seed {seed}")
+    res.notes.append(f"{len(lays)} layouts ({sum(1 for x in plays if x[2] == 'cyclic')} also under round-robin placement), {len(jobs)} single-broadcast jobs, {len(cfgs)} concurrent programs, seed {seed}")
     return res
 
 
@@ -536,6 +637,11 @@ def replay(data):
         sr = run_conc(binary, cfg)
         print("verdict", sr.verdict, sr.stderr[-300:])
         check_conc(res, cfg, sr, ops, CB, CMs[0], True)
+    elif case.get("kind") == "tables":
+        pl = case.get("placement", "block")
+        sr = run_tables(binary, N, p, pl)
+        print("verdict", sr.verdict, sr.stderr[-300:])
+        check_tables(res, N, p, pl, sr, True)
     elif case.get("kind") == "sub":
         j = {k: case[k] for k in ("N", "p", "split", "order", "scheme")}
         j["placement"] = case.get("placement", "block")
@@ -544,10 +650,11 @@ def replay(data):
         check_sub(res, j, sr)
     else:
         lo = case.get("origin", case.get("lo", 0))
-        MB = model_bcasts([(N, p, lo)])
-        sr = run_bcast(binary, N, p, case.get("scheme", "NLNR"), lo, lo + 1, sim_seed=data.get("seed", 1))
+        pl = case.get("placement", "block")
+        MB = model_bcasts([mb_key(N, p, lo, pl)])
+        sr = run_bcast(binary, N, p, case.get("scheme", "NLNR"), lo, lo + 1, sim_seed=data.get("seed", 1), placement=pl)
         print("verdict", sr.verdict, sr.stderr[-300:])
-        check_bcast_job(res, N, p, case.get("scheme", "NLNR"), lo, lo + 1, sr, MB, True)
+        check_bcast_job(res, N, p, case.get("scheme", "NLNR"), lo, lo + 1, sr, MB, True, pl)
     for f in res.oracle_failures[:10]:
         print("oracle:", f["signature"], f["what"])
     for f in res.corr_failures[:10]:
